@@ -103,7 +103,7 @@ def run_sets(res, wd, sets, name):
         elif e == "Cb" and ev["msg"] in ("match", "nomatch") and cur["scans"]:
             strs = {}
             for st in ev.get("strings", []):
-                strs.setdefault(st["id"], []); strs[st["id"]] = sorted(strs[st["id"]] + st["m"])
+                strs.setdefault(st["id"], []); strs[st["id"]] = strs[st["id"]] + st["m"]
             cur["scans"][-1][(ev["ns"], ev["rule"])] = {"verdict": ev["msg"] == "match", "strings": strs}
         elif e == "ScanRet":
             cur["rets"].append(ev["ret"])
